@@ -9,7 +9,7 @@ import (
 // goroutines started through Go become tasks; Recv/Send/Poll keep waiting tasks schedulable; one seed is
 // one interleaving.
 func runSpawn(seed uint64, policy int) (string, *Result) {
-	base := Now() // the sequence counter runs on across runs
+	base := Now()             // the sequence counter runs on across runs
 	logs := make([]string, 3) // one per task: a shared string would be a (reported) data race
 	fns := make([]func(), 3)
 	for i := range fns {
